@@ -125,6 +125,9 @@ func (s *Sim) commitBlock(m *Model, nonce uint64) bool {
 		run.Probe("block_mixing_success_and_failure")
 	}
 	s.LastTrace = bt
+	if s.BeforeCommit != nil {
+		s.BeforeCommit(bt)
+	}
 	// C16: the same block on the same prior state, executed repeatedly (fresh Go map iteration
 	// orders each time) and on every replica, yields the same results
 	reps := int(run.Plan.C("reexec", 2))
